@@ -39,8 +39,7 @@ def graphCheck (D : CfgData) (li lo fi fo : List (Nat × List Nat)) (ext : List 
     kv "next_incomplete" (ns ((stmts.filter (fun s => !stmtNextComplete E s)).map (·.id))),
     kv "live_out_uncovered" (ns ((withLO.filter (fun s => !liveOutCovers IN s (s.liveOut.getD []))).map (·.id))),
     kv "live_out_loose" (ns ((withLO.filter (fun s => !liveOutTight IN s (s.liveOut.getD []))).map (·.id))),
-    kv "live_in_bad" (ns ((stmts.filter (fun s => match s.entry with
-        | some e => !optEq s.liveIn (IN e) | none => false)).map (·.id))),
+    kv "live_in_bad" (ns ((stmts.filter (fun s => !liveInOK IN s)).map (·.id))),
     kv "simple_bad" (ns ((simple.filter (fun (n, i, o) => !(optEq i (IN n) && optEq o (OUT n)))).map (·.1)))]
 
 structure Ctx where
